@@ -1019,3 +1019,158 @@ Proof. intros library a a' Hl W H. exact (rewrite_with_preserves npn_canonical l
 (* the library of Gate/Npn4Model (any pattern list, any second-pass order) satisfies lib_ok *)
 Lemma library_lib_ok : forall pats, lib_ok (canon_pass (by_tt_of pats)).
 Proof. intros pats k p H. exact (proj1 (lookup_sound pats k p H)). Qed.
+
+
+(* ---------- compact / rewrite never fail on a well-formed AIG ---------- *)
+Lemma mem_nat_In : forall x l, mem_nat x l = true <-> In x l.
+Proof.
+  intros x l. induction l as [|y l IH]; cbn [mem_nat In]; [split; [discriminate|contradiction]|].
+  rewrite orb_true_iff, Nat.eqb_eq, IH. reflexivity.
+Qed.
+
+Lemma NoDup_lt_length : forall l n, NoDup l -> (forall x, In x l -> x < n) -> length l <= n.
+Proof.
+  intros l n ND H. rewrite <- (seq_length n 0). apply NoDup_incl_length; [exact ND|].
+  intros x Hx. apply in_seq. specialize (H x Hx). lia.
+Qed.
+
+Definition fanin_closed (nodes : list node) (live extra : list nat) : Prop :=
+  forall i f0 f1, In i live -> nth_error nodes i = Some (NAnd f0 f1) ->
+    (In (fst f0) live \/ In (fst f0) extra) /\ (In (fst f1) live \/ In (fst f1) extra).
+
+Lemma live_dfs_spec : forall nodes, wf_nodes nodes ->
+  forall fuel stack live,
+  NoDup live -> (forall x, In x live -> x < length nodes) -> (forall x, In x stack -> x < length nodes) ->
+  fanin_closed nodes live stack ->
+  2 * (length nodes - length live) + length stack < fuel ->
+  let L := live_dfs fuel nodes stack live in
+  (forall x, In x live -> In x L) /\ (forall x, In x stack -> In x L) /\ fanin_closed nodes L [].
+Proof.
+  intros nodes W. induction fuel as [|fuel IH]; intros stack live ND Hl Hs FC Hf; [lia|]. cbn [live_dfs].
+  destruct stack as [|idx rest].
+  - split; [auto|]. split; [intros x []|]. intros i f0 f1 Hi Hn. destruct (FC i f0 f1 Hi Hn) as [[A|[]] [B|[]]]. split; left; assumption.
+  - destruct (mem_nat idx live) eqn:M.
+    + apply mem_nat_In in M.
+      destruct (IH rest live ND Hl (fun x Hx => Hs x (or_intror Hx))) as [I1 [I2 I3]].
+      * intros i f0 f1 Hi Hn. destruct (FC i f0 f1 Hi Hn) as [A B]. split.
+        -- destruct A as [A|[A|A]]; [left; exact A|left; subst; exact M|right; exact A].
+        -- destruct B as [B|[B|B]]; [left; exact B|left; subst; exact M|right; exact B].
+      * cbn [length] in Hf. lia.
+      * split; [exact I1|]. split; [|exact I3]. intros x [Hx|Hx]; [subst x; apply I1; exact M|apply I2; exact Hx].
+    + assert (Hn : ~ In idx live) by (intro H; apply mem_nat_In in H; congruence).
+      assert (Hidx : idx < length nodes) by (apply Hs; left; reflexivity).
+      assert (ND' : NoDup (idx :: live)) by (constructor; assumption).
+      assert (Hl' : forall x, In x (idx :: live) -> x < length nodes) by (intros x [Hx|Hx]; [subst; exact Hidx|apply Hl; exact Hx]).
+      pose proof (NoDup_lt_length (idx :: live) (length nodes) ND' Hl') as Len. cbn [length] in Len, Hf.
+      destruct (nth idx nodes NConst) as [|o|f0 f1] eqn:Nd.
+      * destruct (IH rest (idx :: live) ND' Hl' (fun x Hx => Hs x (or_intror Hx))) as [I1 [I2 I3]].
+        -- intros i g0 g1 [Hi|Hi] Hg.
+           ++ subst i. rewrite (nth_error_nth _ _ NConst Hg) in Nd. discriminate.
+           ++ destruct (FC i g0 g1 Hi Hg) as [A B]. split.
+              ** destruct A as [A|[A|A]]; [left; right; exact A|left; left; exact A|right; exact A].
+              ** destruct B as [B|[B|B]]; [left; right; exact B|left; left; exact B|right; exact B].
+        -- cbn [length]. lia.
+        -- split; [intros x Hx; apply I1; right; exact Hx|]. split; [|exact I3].
+           intros x [Hx|Hx]; [subst x; apply I1; left; reflexivity|apply I2; exact Hx].
+      * destruct (IH rest (idx :: live) ND' Hl' (fun x Hx => Hs x (or_intror Hx))) as [I1 [I2 I3]].
+        -- intros i g0 g1 [Hi|Hi] Hg.
+           ++ subst i. rewrite (nth_error_nth _ _ NConst Hg) in Nd. discriminate.
+           ++ destruct (FC i g0 g1 Hi Hg) as [A B]. split.
+              ** destruct A as [A|[A|A]]; [left; right; exact A|left; left; exact A|right; exact A].
+              ** destruct B as [B|[B|B]]; [left; right; exact B|left; left; exact B|right; exact B].
+        -- cbn [length]. lia.
+        -- split; [intros x Hx; apply I1; right; exact Hx|]. split; [|exact I3].
+           intros x [Hx|Hx]; [subst x; apply I1; left; reflexivity|apply I2; exact Hx].
+      * assert (Hne : nth_error nodes idx = Some (NAnd f0 f1)).
+        { destruct (nth_error nodes idx) as [v|] eqn:E.
+          - rewrite (nth_error_nth _ _ NConst E) in Nd. subst v. reflexivity.
+          - apply nth_error_None in E. lia. }
+        destruct (W _ _ _ Hne) as [H0 H1].
+        destruct (IH (fst f1 :: fst f0 :: rest) (idx :: live) ND' Hl') as [I1 [I2 I3]].
+        -- intros x [Hx|[Hx|Hx]]; [subst x; lia|subst x; lia|apply Hs; right; exact Hx].
+        -- intros i g0 g1 [Hi|Hi] Hg.
+           ++ subst i. rewrite Hne in Hg. inversion Hg; subst g0 g1. split; right; [right; left|left]; reflexivity.
+           ++ destruct (FC i g0 g1 Hi Hg) as [A B]. split.
+              ** destruct A as [A|[A|A]]; [left; right; exact A|left; left; exact A|right; right; right; exact A].
+              ** destruct B as [B|[B|B]]; [left; right; exact B|left; left; exact B|right; right; right; exact B].
+        -- cbn [length]. lia.
+        -- split; [intros x Hx; apply I1; right; exact Hx|]. split; [|exact I3].
+           intros x [Hx|Hx]; [subst x; apply I1; left; reflexivity|apply I2; right; right; exact Hx].
+Qed.
+
+Lemma live_set_spec : forall a, wf_nodes (a_nodes a) ->
+  Forall (fun s => fst (snd s) < length (a_nodes a)) (a_sinks a) ->
+  (forall s, In s (a_sinks a) -> In (fst (snd s)) (live_set a)) /\ fanin_closed (a_nodes a) (live_set a) [].
+Proof.
+  intros a W S. unfold live_set.
+  destruct (live_dfs_spec (a_nodes a) W (length (a_sinks a) + 2 * length (a_nodes a) + 1)
+              (rev (map (fun s => fst (snd s)) (a_sinks a))) []) as [_ [I2 I3]].
+  - constructor.
+  - intros x [].
+  - intros x Hx. apply in_rev in Hx. apply in_map_iff in Hx. destruct Hx as [s [E Hs]]. subst x.
+    rewrite Forall_forall in S. apply S. exact Hs.
+  - intros i f0 f1 [].
+  - cbn [length]. rewrite rev_length, map_length. unfold edge. lia.
+  - split; [|exact I3]. intros s Hs. apply I2. apply in_rev. rewrite rev_involutive. apply in_map_iff. exists s. split; [reflexivity|exact Hs].
+Qed.
+
+Lemma compact_loop_total : forall old live, wf_nodes old -> fanin_closed old live [] ->
+  forall post pre nn ne, old = pre ++ post -> length ne = length pre ->
+  (forall i, i < length ne -> In i live -> exists e, nth i ne None = Some e) ->
+  exists nn' ne', fold_left (compact_step live) post (Some (nn, ne)) = Some (nn', ne') /\
+    length ne' = length old /\ (forall i, i < length ne' -> In i live -> exists e, nth i ne' None = Some e).
+Proof.
+  intros old live W FC. induction post as [|nd post IH]; intros pre nn ne E L H; cbn [fold_left].
+  - exists nn, ne. split; [reflexivity|]. rewrite app_nil_r in E. subst pre. split; [exact L|exact H].
+  - assert (Hn : nth_error old (length ne) = Some nd).
+    { rewrite E, L. rewrite nth_error_app2 by lia. rewrite Nat.sub_diag. reflexivity. }
+    assert (Step : exists nn2 ne2, compact_step live (Some (nn, ne)) nd = Some (nn2, ne2) /\ length ne2 = S (length ne) /\
+                   (forall i, i < length ne2 -> In i live -> exists e, nth i ne2 None = Some e)).
+    { unfold compact_step. destruct (mem_nat (length ne) live) eqn:M; cbn [negb].
+      - apply mem_nat_In in M.
+        assert (Snoc : forall (nn2 : list node) (e : edge), exists (nn3 : list node) (ne3 : list (option edge)), Some (nn2, ne ++ [Some e]) = Some (nn3, ne3) /\ length ne3 = S (length ne) /\
+                       (forall i, i < length ne3 -> In i live -> exists e', nth i ne3 None = Some e')).
+        { intros nn2 e. exists nn2, (ne ++ [Some e]). split; [reflexivity|]. rewrite app_length. cbn [length]. split; [lia|].
+          intros i Hi Hl. destruct (Nat.lt_ge_cases i (length ne)) as [Hlt|Hge].
+          - rewrite app_nth1 by exact Hlt. apply H; assumption.
+          - assert (i = length ne) by lia. subst i. rewrite app_nth2 by lia. rewrite Nat.sub_diag. exists e. reflexivity. }
+        destruct nd as [|o|f0 f1].
+        + apply Snoc.
+        + destruct (add_input nn o) as [nn2 e]. apply Snoc.
+        + destruct (W _ _ _ Hn) as [H0 H1]. destruct (FC _ _ _ M Hn) as [[A|[]] [B|[]]].
+          destruct (H (fst f0) H0 A) as [e0 E0]. destruct (H (fst f1) H1 B) as [e1 E1].
+          unfold opt_edge. rewrite E0, E1. destruct (mk_and nn (negate_if e0 (snd f0)) (negate_if e1 (snd f1))) as [nn2 e]. apply Snoc.
+      - exists nn, (ne ++ [None]). split; [reflexivity|]. rewrite app_length. cbn [length]. split; [lia|].
+        intros i Hi Hl. destruct (Nat.lt_ge_cases i (length ne)) as [Hlt|Hge].
+        + rewrite app_nth1 by exact Hlt. apply H; assumption.
+        + assert (i = length ne) by lia. subst i. exfalso. apply mem_nat_In in Hl. congruence. }
+    destruct Step as [nn2 [ne2 [S1 [S2 S3]]]]. rewrite S1.
+    apply (IH (pre ++ [nd])); [rewrite <- app_assoc; exact E|rewrite app_length; cbn [length]; lia|exact S3].
+Qed.
+
+Theorem compact_total : forall a, wf_nodes (a_nodes a) ->
+  Forall (fun s => fst (snd s) < length (a_nodes a)) (a_sinks a) -> exists a', compact a = Some a'.
+Proof.
+  intros a W S. destruct (live_set_spec a W S) as [LS FC]. unfold compact. cbv zeta.
+  destruct (compact_loop_total (a_nodes a) (live_set a) W FC (a_nodes a) [] new_nodes [] eq_refl eq_refl) as [nn [ne [F [L H]]]].
+  - intros i Hi. cbn [length] in Hi. lia.
+  - rewrite F.
+    assert (G : forall sinks : list (N * edge), Forall (fun s => fst (snd s) < length (a_nodes a)) sinks -> (forall s, In s sinks -> In (fst (snd s)) (live_set a)) ->
+                exists r, map_opt (fun s : N * edge => match opt_edge ne (snd s) with Some e => Some (fst s, e) | None => None end) sinks = Some r).
+    { induction sinks as [|s sinks IH]; intros Fs Hs; [exists []; reflexivity|]. cbn [map_opt].
+      inversion Fs; subst. destruct (H (fst (snd s))) as [e Ee]; [rewrite L; assumption|apply Hs; left; reflexivity|].
+      unfold opt_edge at 1. rewrite Ee. destruct (IH H3 (fun s' Hs' => Hs s' (or_intror Hs'))) as [r Er]. rewrite Er.
+      eexists. reflexivity. }
+    destruct (G (a_sinks a) S LS) as [r Er]. rewrite Er. eexists. reflexivity.
+Qed.
+
+Theorem rewrite_with_total : forall canon library a, canon_ok canon -> lib_ok library -> wf_aig a = true ->
+  exists a', rewrite_with canon library a = Some a'.
+Proof.
+  intros canon library a Hc Hl W. unfold rewrite_with.
+  destruct (rewrite_nodes_preserves canon library Hc Hl a W) as [[Wn _] [S _]].
+  apply compact_total; [exact Wn|]. exact S.
+Qed.
+
+Theorem rewrite_total : forall library a, lib_ok library -> wf_aig a = true -> exists a', rewrite library a = Some a'.
+Proof. intros library a Hl W. exact (rewrite_with_total npn_canonical library a npn_canonical_ok Hl W). Qed.
